@@ -39,10 +39,11 @@ TraceInit == /\ \E i \in 1..Len(Traces) :
 Silent(A) == A /\ l' = l
 MatchOps == {"tok", "pat", "opat", "dot", "const", "meta"}
 
-TLeaf == LET isoc == TopK.e.op = "oconst" IN
-         /\ LeafW(IF isoc THEN [ok |-> EvAt(l + 1).ok, v |-> EvAt(l + 1).v] ELSE NoCv)
+TLeaf == LET isoc == TopK.e.op \in {"oconst", "oalert"}
+             c == IF TopK.e.op = "oalert" THEN l + 2 ELSE l + 1 IN     \* alert(): its own trace_match, then constant()'s, then the evaluation
+         /\ LeafW(IF isoc THEN [ok |-> EvAt(c).ok, v |-> EvAt(c).v] ELSE NoCv)
          /\ IF isoc
-            THEN /\ EvAt(l).ev = "match" /\ EvAt(l + 1).ev = "const" /\ l' = l + 2        \* constant(): trace_match, then the evaluation
+            THEN /\ EvAt(l).ev = "match" /\ (TopK.e.op = "oalert" => EvAt(l + 1).ev = "match") /\ EvAt(c).ev = "const" /\ l' = c + 1
             ELSE IF TopK.e.op = "constbad"
             THEN EvAt(l).ev = "match" /\ l' = l + 1         \* constant() logs the literal before evaluating it (the evaluation then fails)
             ELSE IF TopK.e.op \in MatchOps
